@@ -37,6 +37,8 @@ func (e *sx) String() string {
 			as = append(as, a.String())
 		}
 		return "phi(" + strings.Join(as, "|") + ")"
+	case "iv":
+		return "iv(" + e.args[0].String() + "..)"
 	case "idx":
 		return e.args[0].String() + "[" + e.args[1].String() + "]"
 	case "fld":
@@ -137,6 +139,27 @@ func symOf(v ssa.Value, env provEnv) *sx {
 	case *ssa.Convert:
 		return symOf(x.X, env)
 	case *ssa.Phi:
+		// a counting loop variable: starts at a value and only ever moves on by a positive constant (i := s; ...; i++)
+		{
+			var start ssa.Value
+			counting := len(x.Edges) >= 2
+			for _, ed := range x.Edges {
+				if add, ok := ed.(*ssa.BinOp); ok && add.Op == token.ADD && add.X == ssa.Value(x) {
+					if k, isK := add.Y.(*ssa.Const); isK && k.Value != nil && k.Int64() > 0 {
+						continue
+					}
+				}
+				if start != nil {
+					counting = false
+				}
+				start = ed
+			}
+			if counting && start != nil {
+				if _, nested := start.(*ssa.Phi); !nested {
+					return &sx{op: "iv", args: []*sx{symOf(start, env)}, v: x}
+				}
+			}
+		}
 		e := &sx{op: "phi", v: x}
 		for _, ed := range x.Edges {
 			if ed == ssa.Value(x) {
@@ -289,6 +312,8 @@ func (e *sx) nonNegShape() bool {
 			}
 		}
 		return len(e.args) > 0
+	case "iv":
+		return len(e.args) == 1 && e.args[0].nonNegShape()
 	}
 	return false
 }
